@@ -46,7 +46,7 @@ RULE = ("seeded generator (VERIF_SEED): d with 1..3 leading zero bytes, odd hex-
         "root, bad tags, bad lengths, x >= p, random x (half non-residues); (r, s) classes zero, 0x7f..0x81, top bit set, short, n-1, n-2, 33..260 bytes; "
         "ciphertexts with short and zero coordinates and payload lengths 0..300, crafted DER (33-byte, negative, wrong hash length, trailing bytes); PKCS#8 "
         "with crafted private-key octets (short, over-long with zeros, >= n); passwords {empty, 1 char, ASCII, UTF-8, 1 KiB, binary, trailing space} x 9 "
-        "wrong variants (one character, case, length, nil), each against the PEM reader and the DER parsers ParsePKCS8PrivateKey / ParsePKCS8EcryptedPrivateKey; ParseSm2PrivateKey called directly (bare and full inner structure); genuine ciphertexts (Encrypt / EncryptAsn1 on one nonce stream, message lengths 1..1000) through CipherMarshal / CipherUnmarshal / DecryptAsn1 and against the model; every loader (in-memory and file-based on the same pairs) x all certificate/key material pairs (3 SM2 file pairs, 3 fresh SM2 pairs incl. "
+        "wrong variants (one character, case, length, nil), each against the PEM reader and the DER parsers ParsePKCS8PrivateKey / ParsePKCS8EcryptedPrivateKey; ParseSm2PrivateKey called directly (bare and full inner structure); genuine ciphertexts (Encrypt / EncryptAsn1 on one nonce stream, message lengths 1..1000) through CipherMarshal / CipherUnmarshal / DecryptAsn1 and against the model; key files of foreign encoders (hand-built ECPrivateKey / PKCS#8 / PEM / PBES2-encrypted PKCS#8 with the scalar in 30..34 octets, top bit set and clear, with and without public key and curve OID, through every reader and the two single-pair TLS loaders; python recomputes [d]G); every loader (in-memory and file-based on the same pairs) x all certificate/key material pairs (3 SM2 file pairs, 3 fresh SM2 pairs incl. "
         "leading-zero coordinates, 2 RSA, 1 ECDSA P-256, garbage, and for three SM2 certificates the key n-d: same X, other Y; the near-miss combinations of the dual loader are always included); composed PEM files for each loader (chain after / before the leaf, skipped blocks, PKCS#8 SM2 under 'EC PRIVATE KEY', SEC 1, encrypted, Ed25519, several key blocks, swapped inputs, empty). Non-trivial: input not empty; distinct = distinct case text")
 
 P = 0xFFFFFFFEFFFFFFFFFFFFFFFFFFFFFFFFFFFFFFFF00000000FFFFFFFFFFFFFFFF
@@ -72,7 +72,40 @@ def classify(f, io):
 def same(f, io, mo):
     if f[0] == "P8":          # the model does not compute [d]G: compare DER and D
         return io[:4] == mo[:4]
+    if f[0] == "FK":          # model: D, and the scalar it hands to the base-point multiplication (must be D itself)
+        return io[:2] == mo[:2] and (mo[0] != "ok" or mo[1] == mo[2])
     return io == mo
+
+
+GX = 0x32C4AE2C1F1981195F9904466A39C9948FE30BBFF2660BE1715A4589334C74C7
+GY = 0xBC3736A2F4F6779C59BDCEE36B692153D0A9877CC62A474002DF32E52139F0A0
+
+
+def _ec_add(p1, p2):
+    """affine addition on the SM2 curve (None = point at infinity)"""
+    if p1 is None:
+        return p2
+    if p2 is None:
+        return p1
+    (x1, y1), (x2, y2) = p1, p2
+    if x1 == x2:
+        if (y1 + y2) % P == 0:
+            return None
+        lam = (3 * x1 * x1 + A) * pow(2 * y1, P - 2, P) % P
+    else:
+        lam = (y2 - y1) * pow(x2 - x1, P - 2, P) % P
+    x3 = (lam * lam - x1 - x2) % P
+    return x3, (lam * (x1 - x3) - y1) % P
+
+
+def _ec_mul(k):
+    acc, q = None, (GX, GY)
+    while k:
+        if k & 1:
+            acc = _ec_add(acc, q)
+        q = _ec_add(q, q)
+        k >>= 1
+    return acc
 
 
 def _pair_match(c, k):
@@ -186,6 +219,22 @@ def predicate(f, io):
             return False, "the wrong passwords were not tried against the DER entry points"
         if io[5] != io[6]:
             return False, "a wrong password was accepted by ParsePKCS8PrivateKey / ParsePKCS8EcryptedPrivateKey on the DER form (%s of %s rejected)" % (io[6], io[5])
+        return True, ""
+    if op == "FK":
+        d = int(f[2], 16)
+        where = "%s, scalar in %s octets%s%s" % (f[4], f[3], ", public key present" if f[5] == "1" else "", ", curve OID present" if f[6] == "1" else "")
+        if int.from_bytes(_unhex(f[7]), "big") != d or len(_unhex(f[7])) != int(f[3]):
+            return False, "BADCASE: scalar octets do not encode the scalar"
+        if io[0] != "ok" or len(io) < 7:
+            return False, "a valid SM2 key file of another encoder was not loaded (%s): %s" % (where, " ".join(io)[:120])
+        pt = _ec_mul(d)
+        want = ["%x" % d, "%x" % pt[0], "%x" % pt[1]]
+        if io[1] != want[0]:
+            return False, "key file of another encoder (%s): loaded D differs from the scalar in the file" % where
+        if io[2:4] != want[1:]:
+            return False, "key file of another encoder (%s): the loaded public point is not [d]G" % where
+        if io[4:7] != want:
+            return False, "key file of another encoder (%s): re-serialising the loaded key gives a key that loads to another (d, [d]G)" % where
         return True, ""
     if op == "EA":
         if io[0] != "ok" or len(io) < 7:
